@@ -95,10 +95,12 @@ def main(argv):
     print("pinned tables agree with the installed reference package")
     n, bad = panel(150 if full else 40)
     if bad:
-        print("HARNESS-ERROR: bit-reproducibility panel: %d of %d cases differ between two pristine "
-              "executions: %s" % (len(bad), n, bad[:10]))
-        return 2
-    print("bit-reproducibility panel: %d cases identical across thread/allocation history" % n)
+        print("%s: bit-reproducibility panel: %d of %d cases differ between two pristine "
+              "executions: %s" % ("HARNESS-ERROR" if full else "WARNING", len(bad), n, bad[:10]))
+        if full:
+            return 2
+    if not bad:
+        print("bit-reproducibility panel: %d cases identical across thread/allocation history" % n)
     nseeds = 200 if full else 8
     problems = []
     for prof in ("C15", "C16", "C18"):
